@@ -426,8 +426,12 @@ class TreeTransformBase(TreeTransform):
                 # Meh, we need a *directory* to put something in it
                 yield ("non-directory parent", parent_id)
 
-    def _set_executability(self, path, trans_id):
-        """Set the executability of versioned files."""
+    def _set_executability(self, path, trans_id, mover=None):
+        """Set the executability of versioned files.
+
+        :param mover: If supplied, the _FileMover that records the previous
+            mode, so that a failed apply can restore it.
+        """
         if self._tree._supports_executable():
             new_executability = self._new_executability[trans_id]
             abspath = self._tree.abspath(path)
@@ -443,7 +447,10 @@ class TreeTransformBase(TreeTransform):
                     to_mode |= 0o010 & ~umask
             else:
                 to_mode = current_mode & ~0o111
-            osutils.chmod_if_possible(abspath, to_mode)
+            if mover is None:
+                osutils.chmod_if_possible(abspath, to_mode)
+            else:
+                mover.chmod(abspath, current_mode, to_mode)
 
     def _new_entry(self, name, parent_id, file_id):
         """Helper function to create a new filesystem entry."""
@@ -1589,7 +1596,7 @@ class GitTreeTransform(DiskTreeTransform):
                     if trans_id in self._new_contents:
                         modified_paths.append(full_path)
                 if trans_id in self._new_executability:
-                    self._set_executability(path, trans_id)
+                    self._set_executability(path, trans_id, mover)
                 if trans_id in self._observed_sha1s:
                     o_sha1, _o_st_val = self._observed_sha1s[trans_id]
                     st = osutils.lstat(full_path)
